@@ -140,7 +140,17 @@ def _make_waiting(case, tree):
     stop_ids = {id(tree[i]) for i in case["stop"]}
     hide_ids = {id(tree[i]) for i in case["hide"]}
     kw = dict(filter_=lambda n: id(n) not in hide_ids, stop=lambda n: id(n) in stop_ids, maxlevel=case["maxlevel"])
-    return [cls(start, **kw) for cls in ITERATORS], stop_ids, hide_ids
+    waiting = []
+    for k, cls in enumerate(ITERATORS):
+        if (k + case.get("truth", 0)) % 2:
+            # the options are public attributes of the iterator object: given to the constructor, or set afterwards (a
+            # subclass that calls super().__init__(node) first, a caller narrowing an iterator before using it)
+            it = cls(start)
+            it.filter_, it.stop, it.maxlevel = kw["filter_"], kw["stop"], kw["maxlevel"]
+        else:
+            it = cls(start, **kw)
+        waiting.append(it)
+    return waiting, stop_ids, hide_ids
 
 
 def _check_waiting(case, tree, waiting, stop_ids, hide_ids, what):
